@@ -8,7 +8,7 @@ use async_std::io::{prelude::SeekExt, Cursor, Read, Seek, SeekFrom, Write};
 use async_std::sync::{Arc, RwLock};
 use async_trait::async_trait;
 use futures::task::{Context, Poll};
-use futures::{Stream, StreamExt};
+use futures::Stream;
 use std::collections::hash_map::Entry;
 use std::collections::HashMap;
 use std::fmt;
@@ -35,16 +35,6 @@ impl AsyncMemoryFS {
         AsyncMemoryFS {
             handle: Arc::new(RwLock::new(AsyncMemoryFsImpl::new())),
         }
-    }
-
-    async fn ensure_has_parent(&self, path: &str) -> VfsResult<()> {
-        let separator = path.rfind('/');
-        if let Some(index) = separator {
-            if self.exists(&path[..index]).await? {
-                return Ok(());
-            }
-        }
-        Err(VfsErrorKind::Other("Parent path does not exist".into()).into())
     }
 }
 
@@ -199,8 +189,9 @@ impl AsyncFileSystem for AsyncMemoryFS {
     }
 
     async fn create_dir(&self, path: &str) -> VfsResult<()> {
-        self.ensure_has_parent(path).await?;
+        // the parent check and the insertion happen under one write lock
         let map = &mut self.handle.write().await.files;
+        ensure_has_parent(map, path)?;
         let entry = map.entry(path.to_string());
         match entry {
             Entry::Occupied(file) => {
@@ -233,9 +224,10 @@ impl AsyncFileSystem for AsyncMemoryFS {
     }
 
     async fn create_file(&self, path: &str) -> VfsResult<Box<dyn Write + Send + Unpin>> {
-        self.ensure_has_parent(path).await?;
         let content = Arc::new(Vec::<u8>::new());
+        // the parent check and the insertion happen under one write lock
         let mut handle = self.handle.write().await;
+        ensure_has_parent(&handle.files, path)?;
         if let Some(existing) = handle.files.get(path) {
             ensure_file(existing)?;
         }
@@ -294,14 +286,19 @@ impl AsyncFileSystem for AsyncMemoryFS {
     }
 
     async fn remove_dir(&self, path: &str) -> VfsResult<()> {
-        if self.read_dir(path).await?.next().await.is_some() {
+        // the emptiness check and the removal happen under one write lock
+        let mut handle = self.handle.write().await;
+        let directory = handle.files.get(path).ok_or(VfsErrorKind::FileNotFound)?;
+        if directory.file_type != VfsFileType::Directory {
+            return Err(VfsErrorKind::Other("Not a directory".into()).into());
+        }
+        let prefix = format!("{}/", path);
+        if handle.files.keys().any(|candidate_path| {
+            candidate_path.starts_with(&prefix) && !candidate_path[prefix.len()..].contains('/')
+        }) {
             return Err(VfsErrorKind::Other("Directory to remove is not empty".into()).into());
         }
-        let mut handle = self.handle.write().await;
-        handle
-            .files
-            .remove(path)
-            .ok_or(VfsErrorKind::FileNotFound)?;
+        handle.files.remove(path);
         Ok(())
     }
 }
@@ -437,6 +434,16 @@ mod tests {
         assert_eq!(&dest.read_to_string().await?, "Hello World");
         Ok(())
     }
+}
+
+fn ensure_has_parent(files: &HashMap<String, AsyncMemoryFile>, path: &str) -> VfsResult<()> {
+    let separator = path.rfind('/');
+    if let Some(index) = separator {
+        if files.contains_key(&path[..index]) {
+            return Ok(());
+        }
+    }
+    Err(VfsErrorKind::Other("Parent path does not exist".into()).into())
 }
 
 fn ensure_file(file: &AsyncMemoryFile) -> VfsResult<()> {
